@@ -58,3 +58,8 @@ chk("C20", "exploration",
     "selector classes are known by construction (never parsed from pint); regexp/negative matchers and branch-added dependants are don't-care; no symlinks, control comments or broken files at HEAD",
     "reference-model monitor over generated histories executed by the real pint ci binary (JSON report + H1 dump)",
     "DESIGN.md §3 C20")
+chk("C17", "exploration",
+    "stateful comment-store monitor: the real Submit/updateDestination/makeComments is driven for 2-6 evolving rounds plus a settling phase over (a) an in-memory store whose IsEqual/CanCreate/CanDelete are the real GitLab/GitHub reporter methods and (b) the real reporters end-to-end against stateful fake GitLab/GitHub HTTP APIs (pagination, foreign comments); a spy at the Commenter interface records list/create/delete; oracles for budget, duplicate creation, coverage, stale deletion, needed/foreign deletion, idempotence and convergence. 20k / 300k sequences per seed.",
+    "fidelity of the fake APIs (accept every position, documented page sizes); the in-memory store keeps a comment where the platform's own IsEqual recognises it; coverage relation relaxed for GitHub patch lines and removed-line problems",
+    "stateful store monitor + Commenter-interface spy over multi-round executions of the real reporters",
+    "DESIGN.md §3 C17")
